@@ -63,3 +63,16 @@ Theorem C36_delay_returns_early_on_cancel : forall c ops a k d,
   o_ret (snd (step (reach c ops) (OpDelay (CtxEnds a k)))) = Some (a, ctx_err k) /\ ctx_err k <> 0.
 Proof. exact delay_returns_early_on_cancel. Qed.
 Print Assumptions C36_delay_returns_early_on_cancel.
+
+(* Second tie (DESIGN 3.5, docs/gotrans.md): touch / Signal / Release / Reset as translated from
+   store/throttler/throttler.go on this run are the hand model's functions (rep = the Go-side struct of
+   a model state; absorb = that struct and the timer calls the method made, applied to the model state). *)
+From RQ Require Import Gen.Throttler Proofs.C36_Gen.
+Theorem C36_source_derived_eq :
+  (forall s, absorb s (rep s) (Throttler_touch unit (rep s)) = touch s) /\
+  (forall s, absorb s (fst (Throttler_Signal unit (rep s))) (snd (Throttler_Signal unit (rep s))) = signal s) /\
+  (forall s, absorb s (fst (Throttler_Release unit (rep s))) (snd (Throttler_Release unit (rep s))) = release s) /\
+  (forall s, (s_idle s <= 0 -> s_timer s = None) ->
+     absorb s (fst (Throttler_Reset unit (rep s))) (snd (Throttler_Reset unit (rep s))) = reset s).
+Proof. exact gen_throttler_eq. Qed.
+Print Assumptions C36_source_derived_eq.
